@@ -48,7 +48,14 @@ Prog1(e, composite, splice) ==
          SVar("so", Obj(<<"k">>, <<e>>)), SPrint(Arr(<<Id("so"), Id("so")>>)), SPrint(Obj(<<"p", "q">>, <<Id("so"), Arr(<<Id("so")>>)>>)) >>
       ELSE <<>>)
 IsPlainStr(v) == v[2] # "str" \/ \A c \in {v[3].v.s[i] : i \in 1..Len(v[3].v.s)} : c \notin {9, 10, 32}
-Cases == SetToSeq({ [t |-> Prog1(v[3], IsPlainStr(v), v[2] \notin {"nil", "bool"}), c |-> v[2], key |-> "print:" \o v[1]] : v \in Values })
+Again == <<   \* a container printed, changed, printed again: the second text shows the container as it is then
+  [t |-> << SVar("o", Obj(<<"a", "b", "c">>, <<Num(1), Num(2), Num(3)>>)), SPrint(Id("o")), SExpr(Call(Id("delkey"), <<Id("o"), Str("a")>>)), SExpr(PAsg(Id("o"), "z", Num(26))), SPrint(Id("o")),
+            SExpr(PAsg(Id("o"), "b", Str("two"))), SPrint(Id("o")), SPrint(Arr(<<Id("o")>>)) >>, c |-> "again", key |-> "again:replace-property"],
+  [t |-> << SVar("a", Arr(<<Num(1), Num(2), Num(3)>>)), SPrint(Id("a")), SExpr(IAsg(Id("a"), Num(0), Str("x"))), SPrint(Id("a")), SVar("b", Call(Id("push"), <<Id("a"), Num(4)>>)), SPrint(Id("a")), SPrint(Id("b")),
+            SVar("w", Obj(<<"arr">>, <<Id("a")>>)), SPrint(Id("w")), SExpr(IAsg(Id("a"), Num(2), Lit(VNil))), SPrint(Id("w")), SPrint(Arr(<<Id("w"), Id("a")>>)) >>, c |-> "again", key |-> "again:array-through-holder"],
+  [t |-> << SVar("o", Obj(<<"k">>, <<Num(1)>>)), SVar("p", Obj(<<"k">>, <<Num(2)>>)), SPrint(Id("o")), SPrint(Id("p")), SPrint(Id("o")), SExpr(Call(Id("delkey"), <<Id("p"), Str("k")>>)), SExpr(PAsg(Id("p"), "m", Num(3))),
+            SPrint(Id("p")), SPrint(Id("o")), SVar("q", Obj(<<"m">>, <<Num(9)>>)), SPrint(Id("q")) >>, c |-> "again", key |-> "again:two-objects-same-size"] >>
+Cases == SetToSeq({ [t |-> Prog1(v[3], IsPlainStr(v), v[2] \notin {"nil", "bool"}), c |-> v[2], key |-> "print:" \o v[1]] : v \in Values }) \o Again
 Programs == [i \in 1..Len(Cases) |-> LayoutProg(Cases[i].t, 1)]
 FamProgOf(i) == Programs[i]
 Init == \E i \in 1..Len(Programs) : InitSem(i, <<>>, FALSE)
